@@ -687,7 +687,7 @@ def main(tier, seed, only=None):
         "explored by the tape in (B)",
         "use_move updates are exempt from the adjacency rule (the property restricts it to value-setting updates)",
     ]
-    par.run_shards(run, worker, shards, seed, shard_limit=240 if tier == "quick" else 3600)
+    par.run_shards(run, worker, shards, seed, shard_limit=900 if tier == "quick" else 3600)
     cov = {
         "states": run.n("states"),
         "transitions": run.c("transitions"),
